@@ -46,6 +46,9 @@ let enc = ref 0
 let mw = ref 48
 let mh = ref 48
 let scr : z list list ref = ref []
+let sfb : z list list ref = ref []
+let scr_w = ref 0
+let scr_h = ref 0
 (* effective client format: bpp depth be tc rmax gmax bmax rs gs bs *)
 let fmt : int array ref = ref [||]
 
@@ -75,7 +78,8 @@ let () =
     | [] -> ()
     | "case" :: _ -> print_endline line; mw := 48; mh := 48; enc := 0; tight_level := -1; tight_quality := -1;
         tight_lastrect := false
-    | "screen" :: _ :: _ :: b :: _ -> bypp := ri b; sbypp := ri b; fmt := [||]
+    | "screen" :: w :: h :: b :: _ -> bypp := ri b; sbypp := ri b; fmt := [||]; scr_w := ri w; scr_h := ri h
+    | ["fb"; hex] -> if !enc = 7 && !tight_lastrect then sfb := grid_of_hex !sbypp !scr_w !scr_h hex
     | "cfmt" :: bpp :: rest -> bypp := ri bpp / 8; fmt := Array.of_list (List.map ri (bpp :: rest))
     | "enc" :: name :: rest ->
         enc := enc_of name;
@@ -96,8 +100,8 @@ let () =
           if !enc = 7 && Array.length !fmt >= 10 then
             let f = !fmt in
             let zi k = z_of_int f.(k) in
-            send_tight_top (nat_of_int !bypp) (zi 1) (zi 2) (zi 4) (zi 5) (zi 6) (zi 7) (zi 8) (zi 9)
-              (z_of_int !tight_level) (z_of_int !tight_quality) !tight_lastrect (ni x) (ni y) (ni w) (ni h) !scr
+            send_tight_session (nat_of_int !sbypp) (nat_of_int !bypp) (zi 1) (zi 2) (zi 4) (zi 5) (zi 6) (zi 7) (zi 8) (zi 9)
+              (z_of_int !tight_level) (z_of_int !tight_quality) !tight_lastrect (ni x) (ni y) (ni w) (ni h) !scr !sfb
           else send_rect p (ni x) (ni y) (ni w) (ni h) !scr in
         (match result with
          | Ok rects ->
